@@ -330,6 +330,12 @@ func (s *Sim) Run() {
 			s.EndReason = "max-simtime"
 			break
 		}
+		// never let anything run at an instant that is exactly a whole second (see run.go: such an instant equals the
+		// timestamps the API server truncates to seconds, which no real clock does); timers set for absolute, truncated
+		// deadlines can still lead there
+		if time.Now().Nanosecond() == 0 {
+			time.Sleep(137 * time.Microsecond)
+		}
 		s.fireTimers()
 		if s.pendingReap {
 			s.reap()
